@@ -11,7 +11,7 @@
      grid_impl  : Euler on the assembled network
    Spec:
      prod_rm    : the full Cartesian product;  grid_spec : each row simulated on its own.
-   Linear circuits  x_i' = -k_i x_i + c_i + sum_{(s,i,w) in edges} w x_s  over Qc (what the correspondence run uses). *)
+   Linear circuits  x_i' = -k_i x_i + c_i + sum_{(s,i,w) in edges} w x_s + u_i(t)  over Qc (what the correspondence run uses). *)
 From Coq Require Import List ZArith QArith Qcanon Bool Arith.
 Import ListNotations.
 
@@ -36,16 +36,19 @@ Definition linearize {V} (d : V) (vs : list (list V)) (permute : bool) : option 
 
 (* ------------------------------------------------------------------------------------------ circuits *)
 Open Scope Qc_scope.
-Record circ := { ks : list Qc; cs : list Qc; x0 : list Qc; edges : list (nat * nat * Qc) }.
+(* uin: extrinsic input series per node (grid_search(inputs=...) broadcasts the same series to every copy; the value
+   used in Euler step j is series[j], added to the node's input sum; [] = no input) *)
+Record circ := { ks : list Qc; cs : list Qc; x0 : list Qc; edges : list (nat * nat * Qc); uin : list (list Qc) }.
 
 Definition insum (es : list (nat * nat * Qc)) (x : list Qc) (i : nat) : Qc :=
   fold_right (fun e acc => let '(s, t, w) := e in if Nat.eqb t i then w * nth s x 0 + acc else acc) 0 es.
-Definition deriv (C : circ) (x : list Qc) (i : nat) : Qc :=
-  - nth i (ks C) 0 * nth i x 0 + nth i (cs C) 0 + insum (edges C) x i.
-Definition euler_step (dt : Qc) (C : circ) (x : list Qc) : list Qc :=
-  map (fun i => nth i x 0 + dt * deriv C x i) (seq 0 (length x)).
-Fixpoint traj (dt : Qc) (C : circ) (x : list Qc) (n : nat) : list (list Qc) :=
-  match n with O => [] | S n' => x :: traj dt C (euler_step dt C x) n' end.
+Definition deriv (C : circ) (j : nat) (x : list Qc) (i : nat) : Qc :=
+  - nth i (ks C) 0 * nth i x 0 + nth i (cs C) 0 + insum (edges C) x i + nth j (nth i (uin C) []) 0.
+Definition euler_step (dt : Qc) (C : circ) (j : nat) (x : list Qc) : list Qc :=
+  map (fun i => nth i x 0 + dt * deriv C j x i) (seq 0 (length x)).
+(* n states starting with x at step number j *)
+Fixpoint traj (dt : Qc) (C : circ) (x : list Qc) (j n : nat) : list (list Qc) :=
+  match n with O => [] | S n' => x :: traj dt C (euler_step dt C j x) (S j) n' end.
 
 (* adapt_circuit: targets of one grid key *)
 Inductive target := TK (i : nat) | TC (i : nat) | TW (j : nat).
@@ -53,13 +56,13 @@ Definition set_nth {A} (l : list A) (i : nat) (a : A) : list A :=
   if Nat.ltb i (length l) then firstn i l ++ a :: skipn (S i) l else l.
 Definition write (C : circ) (tv : target * Qc) : circ :=
   match fst tv with
-  | TK i => {| ks := set_nth (ks C) i (snd tv); cs := cs C; x0 := x0 C; edges := edges C |}
-  | TC i => {| ks := ks C; cs := set_nth (cs C) i (snd tv); x0 := x0 C; edges := edges C |}
+  | TK i => {| ks := set_nth (ks C) i (snd tv); cs := cs C; x0 := x0 C; edges := edges C; uin := uin C |}
+  | TC i => {| ks := ks C; cs := set_nth (cs C) i (snd tv); x0 := x0 C; edges := edges C; uin := uin C |}
   | TW j => {| ks := ks C; cs := cs C; x0 := x0 C;
                edges := match nth_error (edges C) j with
                         | Some (s, t, _) => set_nth (edges C) j (s, t, snd tv)
                         | None => edges C
-                        end |}
+                        end; uin := uin C |}
   end.
 Definition adapt (C : circ) (pmap : list (list target)) (row : list Qc) : circ :=
   fold_left write (flat_map (fun kv => map (fun tg => (tg, snd kv)) (fst kv)) (combine pmap row)) C.
@@ -76,22 +79,22 @@ Definition assemble (Cs : list circ) : net := {| comps := Cs; gedges := tagged_f
 Definition ginsum (es : list gedge) (X : list (list Qc)) (b i : nat) : Qc :=
   fold_right (fun (e : gedge) acc => let '((sb, si), (tb, ti), w) := e in
                 if Nat.eqb tb b && Nat.eqb ti i then w * nth si (nth sb X []) 0 + acc else acc) 0 es.
-Definition nderiv (N : net) (X : list (list Qc)) (b i : nat) : Qc :=
-  let C := nth b (comps N) {| ks := []; cs := []; x0 := []; edges := [] |} in
-  - nth i (ks C) 0 * nth i (nth b X []) 0 + nth i (cs C) 0 + ginsum (gedges N) X b i.
-Definition neuler_step (dt : Qc) (N : net) (X : list (list Qc)) : list (list Qc) :=
-  map (fun b => map (fun i => nth i (nth b X []) 0 + dt * nderiv N X b i) (seq 0 (length (nth b X [])))) (seq 0 (length X)).
-Fixpoint ntraj (dt : Qc) (N : net) (X : list (list Qc)) (n : nat) : list (list (list Qc)) :=
-  match n with O => [] | S n' => X :: ntraj dt N (neuler_step dt N X) n' end.
+Definition nderiv (N : net) (j : nat) (X : list (list Qc)) (b i : nat) : Qc :=
+  let C := nth b (comps N) {| ks := []; cs := []; x0 := []; edges := []; uin := [] |} in
+  - nth i (ks C) 0 * nth i (nth b X []) 0 + nth i (cs C) 0 + ginsum (gedges N) X b i + nth j (nth i (uin C) []) 0.
+Definition neuler_step (dt : Qc) (N : net) (j : nat) (X : list (list Qc)) : list (list Qc) :=
+  map (fun b => map (fun i => nth i (nth b X []) 0 + dt * nderiv N j X b i) (seq 0 (length (nth b X [])))) (seq 0 (length X)).
+Fixpoint ntraj (dt : Qc) (N : net) (X : list (list Qc)) (j n : nat) : list (list (list Qc)) :=
+  match n with O => [] | S n' => X :: ntraj dt N (neuler_step dt N j X) (S j) n' end.
 
 (* grid_search: the returned table and, per time point, per row, the state of that row's sub-circuit *)
 Definition grid_impl (C : circ) (pmap : list (list target)) (vals : list (list Qc)) (permute : bool) (dt : Qc) (n : nat)
   : option (list (list Qc) * list (list (list Qc))) :=
   match linearize 0 vals permute with
   | None => None
-  | Some rows => let Cs := map (adapt C pmap) rows in Some (rows, ntraj dt (assemble Cs) (map x0 Cs) n)
+  | Some rows => let Cs := map (adapt C pmap) rows in Some (rows, ntraj dt (assemble Cs) (map x0 Cs) 0 n)
   end.
 (* Spec: every row on its own *)
 Definition grid_spec (C : circ) (pmap : list (list target)) (rows : list (list Qc)) (dt : Qc) (n : nat)
   : list (list (list Qc)) :=
-  map (fun row => let C' := adapt C pmap row in traj dt C' (x0 C') n) rows.
+  map (fun row => let C' := adapt C pmap row in traj dt C' (x0 C') 0 n) rows.
